@@ -89,6 +89,9 @@ structure Folder where
   delCtr : Nat := 0
   /-- place of this folder in the file system's `deleted_folders` (deletion order); meaningful only while `deleted` -/
   delSeq : Nat := 0
+  /-- `_scanned_this_step`: set by a completing scan of this folder (timed or whole-node), reset by `pre_timestep`; read by
+  `FolderObservation.observe` to decide whether to refresh the health it reports -/
+  scanned : Bool := false
 deriving DecidableEq, Repr
 
 structure Node where
@@ -295,7 +298,7 @@ status becomes CORRUPT if one of them is (visibly, i.e. actually) CORRUPT, else 
 def Folder.instantScan (F : Folder) : Folder :=
   if F.deleted then F else
   { F with files := F.files.map File.scan,
-           visible := if anyLiveCorrupt F.files then .corrupt else F.visible }
+           visible := if anyLiveCorrupt F.files then .corrupt else F.visible, scanned := true }
 
 /-- `Folder.scan()` (timed): start the countdown unless one is running. Returns True unless deleted. -/
 def Folder.scan (F : Folder) : Folder :=
@@ -306,7 +309,8 @@ def Folder.scan (F : Folder) : Folder :=
 def Folder.scanTick (F : Folder) : Folder :=
   if F.scanCd ≥ 0 then
     if F.scanCd - 1 = 0 then
-      { F with scanCd := 0, files := F.files.map File.scan, actual := worstLive F.files, visible := worstLive F.files }
+      { F with scanCd := 0, files := F.files.map File.scan, actual := worstLive F.files, visible := worstLive F.files,
+               scanned := true }
     else { F with scanCd := F.scanCd - 1 }
   else F
 
